@@ -69,6 +69,7 @@ struct VolRoundtrip : Family {
 				else if (r.chance(1, 6)) { static const char* P[] = {"[", "{", "@", "`", "^", "~", "]", "}"}; nm.insert(r.below(nm.size() + 1), P[r.below(8)]); }
 				if (!names.empty() && r.chance(1, 6)) nm = tieProneSibling(names[r.below(names.size())], r);
 				if (r.chance(1, 8)) nm = digestTwin(names, r, 40); // different names with one 32-bit digest
+				if (!nm.empty() && nm[0] == '_') nm[0] = '^'; // harness-owned paths start with '_'
 				bool clash = false;
 				for (auto& o : names) if (ref::nameEqualNoCase(o, nm)) clash = true;
 				if (!clash) break;
